@@ -10,7 +10,7 @@ git -C /repo worktree remove --force $wt >/dev/null 2>&1; rm -rf $wt
 git -C /repo worktree add -q --detach $wt HEAD || exit 2
 trap 'git -C /repo worktree remove --force $wt >/dev/null 2>&1; rm -rf $wt /verif/work/selftest' EXIT
 fail=0; n=0
-for d in seeded/*/; do
+for d in /verif/seeded/*/; do
   name=$(basename $d)
   [ -n "$1" ] && ! echo "$name" | grep -q "$1" && continue
   props=$(python3 -c "
